@@ -175,6 +175,7 @@ func cmdCheck() int {
 		marks         = map[string]int{}
 		assumedPre    = map[string]string{}
 		noImplicit    = map[string]int{}
+		privateRegions = map[string]string{}
 		inlined       = map[string]bool{}
 		effFree       = map[string]bool{}
 		axioms        = map[string]bool{}
@@ -228,6 +229,9 @@ func cmdCheck() int {
 				axioms[a] = true
 			}
 			assumeCount += r.enc.assumes
+			for k := range r.enc.usedPrivate {
+				privateRegions[k] = p.specs.Private[k]
+			}
 			if r.enc.skippedImplicit > 0 {
 				noImplicit[shortFunc(r.spec.Name)] = r.enc.skippedImplicit
 			}
@@ -379,6 +383,7 @@ func cmdCheck() int {
 		"typestate_marks_assumed":  marks,
 		"callee_preconditions_assumed": assumedPre,
 		"functions_without_implicit_panic_obligations": noImplicit,
+		"regions_assumed_private_to_their_direct_writers": privateRegions,
 		"callees_effectfree":       keysOf(effFree),
 		"axioms":                   keysOf(axioms),
 		"assume_count":             assumeCount,
